@@ -151,14 +151,18 @@ let rec mk_o xs = W (fun t ->
   match res, dump with
   | Some r, Some d -> (mk_o xs', { o_res = r; o_wakes = wakes; o_dump = d }, ok)
   | _ -> raise (Bad "empty expansion"))
-let rec mk_b x = W (fun t -> let ((x', o), ok) = bstep2 x (parse_bop t) in (mk_b x', o, ok))
+(* Barrier: lockstep with the barrier's machine (bstep2) and with its product with the machine of the state mutex (ystep2) *)
+let rec mk_b (x, y) = W (fun t -> let op = parse_bop t in
+                                  let ((x', o), ok1) = bstep2 x op in
+                                  let ((y', _), ok2) = ystep2 y op in
+                                  (mk_b (x', y'), o, ok1 && ok2))
 
 let init_world toks = match toks with
   | ["mutex"] -> mk_m mw2_init
   | ["sem"; n] -> mk_s (sw2_init (n_of_string n))
   | ["rw"] -> mk_r (rw2_init, ww2_init, x3_init)
   | ["once"] -> mk_o ow2_init
-  | ["bar"; n] -> mk_b (bw2_init (n_of_string n))
+  | ["bar"; n] -> mk_b (bw2_init (n_of_string n), by2_init (n_of_string n))
   | _ -> raise (Bad ("header " ^ String.concat " " toks))
 
 let split_ws s = List.filter (fun x -> x <> "") (String.split_on_char ' ' (String.trim s))
